@@ -163,13 +163,13 @@ def write_replay(prop, key, rec, contract, src, n):
     def texts(lst):
         return [c[1] if isinstance(c, tuple) else c for c in lst]
     kind_full = rec['key'].split(':', 1)[1] if ':' in rec['key'] else rec['key']
-    m_k = re.match(r'^(post|exc-post|yield-req|raises-only-if|noraise-outside|inv-keep|inv-init|pre@call|call-req|variant)(?:\[([^\]]*)\])?(?:#(.*))?$', kind_full)
+    m_k = re.match(r'^(post|exc-post|exc-frame|frame|yield-req|raises-only-if|noraise-outside|inv-keep|inv-init|pre@call|call-req|variant)(?:\[([^\]]*)\])?(?:#(.*))?$', kind_full)
     focus = None
     if m_k:
         focus = {'kind': m_k.group(1), 'name': (m_k.group(3) if m_k.group(1) in ('post', 'exc-post', 'yield-req') else m_k.group(2))}
         if focus['name']:
             focus['name'] = re.sub(r'@C\d+(,C\d+)*$', lambda mm: mm.group(0), focus['name'])
-        if focus['kind'] not in ('post', 'yield-req', 'raises-only-if', 'noraise-outside'):
+        if focus['kind'] not in ('post', 'yield-req', 'raises-only-if', 'noraise-outside', 'frame', 'exc-frame'):
             focus = {'kind': None, 'name': None}     # auxiliary obligation: replay against all property-level clauses
     named = lambda lst: [[c[0], c[1]] if isinstance(c, tuple) else [str(i), c] for i, c in enumerate(lst)]
     doc = {
@@ -183,6 +183,7 @@ def write_replay(prop, key, rec, contract, src, n):
                      'raises': contract.get('raises', {}), 'ensures': texts(contract.get('ensures', [])),
                      'ensures_named': named(contract.get('ensures', [])), 'yield_requires_named': named(contract.get('yield_requires', [])),
                      'may_raise': contract.get('may_raise', []),
+                     'modifies': contract.get('modifies'), 'exc_modifies': contract.get('exc_modifies'), 'has_stubs': bool(contract.get('stubs')),
                      'ghost': contract.get('ghost', {}), 'on_yield': contract.get('on_yield', {}),
                      'yield_requires': texts(contract.get('yield_requires', [])), 'is_generator': bool(contract.get('on_yield') or contract.get('yield_requires'))},
         'spec_module': SPEC_PATH, 'smt2': rec.get('smt2'),
